@@ -204,6 +204,34 @@ func runC31(c c31Case) (r vf.Result) {
 			time.Sleep(50 * time.Millisecond)
 		}
 	}
+	if reached && !isGW && c.DTLS && credsOn && !insecureOn {
+		// DTLS was asked for and the secure session cannot be set up: the peer refuses the
+		// handshake (fatal alert handshake_failure). Whatever the tool does then, it must not go on
+		// in the clear: no MQTT-SN CONNECT / AUTH datagram may follow.
+		r.Label("dtls-handshake-refused")
+		if buf[0] == 22 {
+			alert := []byte{21, 0xfe, 0xfd, 0, 0, 0, 0, 0, 0, 0, 0, 0, 2, 2, 40}
+			var from *net.UDPAddr
+			// (the source address is learnt from the next datagram: the tool retransmits its ClientHello)
+			end := time.Now().Add(2500 * time.Millisecond)
+			for time.Now().Before(end) && !p.exited() {
+				sock.SetReadDeadline(time.Now().Add(100 * time.Millisecond))
+				n, a, err := sock.ReadFromUDP(buf)
+				if err != nil || n == 0 {
+					continue
+				}
+				from = a
+				if buf[0] >= 20 && buf[0] <= 25 && n >= 3 && buf[1] == 0xfe {
+					sock.WriteToUDP(alert, from) // still DTLS: refuse again
+					continue
+				}
+				if pk, _, err := snref.Decode(buf[:n], false); err == nil && (pk.Type == snref.CONNECT || pk.Type == snref.AUTH) {
+					r.Fail("plaintext-after-dtls-failure/"+c.Tool, "%s: the DTLS handshake was refused and the tool went on in clear UDP: %v (%x)\n%s", desc, pk, buf[:min(n, 40)], p.output())
+					return
+				}
+			}
+		}
+	}
 	switch {
 	case mustRefuse && reached:
 		r.Fail("plaintext-credentials-not-refused/"+c.Tool, "%s: credentials are configured, DTLS is off and --insecure is absent, but the tool went to the network\n%s", desc, p.output())
@@ -224,7 +252,7 @@ func runC31(c c31Case) (r vf.Result) {
 func TestC31CLI(t *testing.T) {
 	vf.Check(t, vf.Prop[c31Case]{
 		ID: "C31", Name: "cli-refuses-plaintext",
-		Rule: "exhaustive: {bisquitt, bisquitt-pub, bisquitt-sub} x credentials {--auth / --user by flag, by environment variable, absent} x {--password given, absent} x {--dtls --self-signed on, off, --self-signed alone (the transport stays plain UDP)} x {--insecure absent, flag, environment, present with the value false as flag or environment} (for the gateway also --auth=false / AUTH=false): 255 process runs against loopback sockets; every combination is a distinct non-trivial case. The tool must refuse (non-zero exit, no datagram sent / UDP port never bound) iff credentials are configured, DTLS is off and the insecure option is not set to true (absent, or present with the value false); otherwise it must reach the network (first datagram observed / port bound), after which it is killed.",
+		Rule: "exhaustive: {bisquitt, bisquitt-pub, bisquitt-sub} x credentials {--auth / --user by flag, by environment variable, absent} x {--password given, absent} x {--dtls --self-signed on, off, --self-signed alone (the transport stays plain UDP)} x {--insecure absent, flag, environment, present with the value false as flag or environment} (for the gateway also --auth=false / AUTH=false): 255 process runs against loopback sockets; every combination is a distinct non-trivial case. The tool must refuse (non-zero exit, no datagram sent / UDP port never bound) iff credentials are configured, DTLS is off and the insecure option is not set to true (absent, or present with the value false); otherwise it must reach the network (first datagram observed / port bound), after which it is killed; a client tool which was given credentials and --dtls has its handshake refused by the peer (fatal alert) and is watched for 2.5 s: no MQTT-SN CONNECT or AUTH may follow in clear UDP.",
 		Assumptions: []string{"real processes and real time: 6 s are allowed per run and an expiry is inconclusive (skipped)", "DTLS handshakes are not completed: only the decision to proceed is observed"},
 		Exhaustive: func(tier string, yield func(c31Case)) {
 			for _, tool := range []string{"bisquitt", "bisquitt-pub", "bisquitt-sub"} {
